@@ -241,7 +241,7 @@ func resultGeParam(callee *ssa.Function, ridx int, pidx int) bool {
 		if len(ret.Results) > 1 {
 			last := ret.Results[len(ret.Results)-1]
 			if last.Type().String() == "error" {
-				failing := false
+				failing := definitelyNonNilErr(last)
 				for _, f := range factsAtBlock(b) {
 					if bo, ok := f.Cond.(*ssa.BinOp); ok && f.Pos && bo.Op == token.NEQ && isNilConst(bo.Y) && flowsFrom(last, bo.X, 0) {
 						failing = true
@@ -653,6 +653,21 @@ func structEq(a, b ssa.Value, depth int) bool {
 	case *ssa.Convert:
 		y, ok := b.(*ssa.Convert)
 		return ok && types.Identical(x.Type(), y.Type()) && structEq(x.X, y.X, depth+1)
+	}
+	return false
+}
+
+
+// definitelyNonNilErr: v is a freshly built error (fmt.Errorf / errors.New, or a concrete value boxed into the interface).
+func definitelyNonNilErr(v ssa.Value) bool {
+	switch x := v.(type) {
+	case *ssa.Call:
+		if cal := x.Call.StaticCallee(); cal != nil && cal.Pkg != nil {
+			pp, n := cal.Pkg.Pkg.Path(), cal.Name()
+			return (pp == "fmt" && n == "Errorf") || (pp == "errors" && n == "New")
+		}
+	case *ssa.MakeInterface:
+		return true
 	}
 	return false
 }
